@@ -566,7 +566,7 @@ func (w *c07World) settle() {
 			return
 		}
 		if time.Now().After(deadline) {
-			w.tb.Fatalf("HARNESS settle timeout: %+v queue=%d", g, w.buf.VerifC07QueueLen())
+			w.tb.Fatalf("HARNESS settle timeout: goroutines %+v (want %d workers, %d wal loop)", g, wantWorkers, wantWal)
 		}
 		if spin < 400 {
 			runtime.Gosched()
@@ -1152,7 +1152,7 @@ func c07GenHistory(t *rapid.T) c07History {
 	var h c07History
 	h.Cfg.WAL = rapid.IntRange(0, 5).Draw(t, "wal") != 0
 	h.Cfg.QueueSize = rapid.SampledFrom([]int{1, 2, 2, 16}).Draw(t, "queue")
-	h.Cfg.Workers = rapid.IntRange(1, 2).Draw(t, "workers")
+	h.Cfg.Workers = 1 // one worker: the order of storage writes (and so of scripted failures) is a function of the history
 	h.Cfg.MaxBuffer = rapid.IntRange(2, 5).Draw(t, "maxbuf")
 	h.Cfg.RotateEach = rapid.IntRange(0, 5).Draw(t, "rotateEach") != 0 // 1 entry per WAL file (payload >= max size) vs one big file
 	kinds := []string{"write", "write", "write", "write", "write", "write", "write", "write", "hold", "release", "fail", "fail", "fail", "fail", "heal",
